@@ -438,6 +438,34 @@ def _with_corpus(rep, opname, cases):
     yield from cases
 
 
+class _CaseTimeout(BaseException):
+    pass
+
+
+class _watchdog:
+    """per-case time limit for the code under test (SIGALRM, main thread only; a no-op elsewhere)"""
+    def __init__(self, seconds):
+        self.s = seconds
+        self.on = False
+
+    def __enter__(self):
+        import signal, threading
+        if self.s > 0 and threading.current_thread() is threading.main_thread() and hasattr(signal, "setitimer"):
+            def h(sig, frm):
+                raise _CaseTimeout()
+            self.old = signal.signal(signal.SIGALRM, h)
+            signal.setitimer(signal.ITIMER_REAL, self.s)
+            self.on = True
+        return self
+
+    def __exit__(self, *a):
+        if self.on:
+            import signal
+            signal.setitimer(signal.ITIMER_REAL, 0)
+            signal.signal(signal.SIGALRM, self.old)
+        return False
+
+
 def run_correspondence(rep: Report, drv, cases, impl, model_req, compare, oracle, opname, batch=4000, nontrivial=None, req_uses_output=False):
     """For every case: run the real implementation (`impl`), the direct property oracle on what the
     implementation did (`oracle` -> list of (key, what)), and - when a driver is available - the Lean
@@ -496,7 +524,15 @@ def run_correspondence(rep: Report, drv, cases, impl, model_req, compare, oracle
         # the generator has moved on; the snapshot is what the implementation, the model, the oracle and the replay file all see
         c = _freeze(c)
         try:
-            o = impl(c)
+            with _watchdog(float(os.environ.get("VERIF_CASE_TIMEOUT_S", "600"))):
+                o = impl(c)
+        except _CaseTimeout:
+            # the code under test did not return on this case (e.g. a loop that no longer terminates): reported with the case, the run goes on
+            rep.count("case-timeouts")
+            o = {"harness_exception": "the implementation did not return within the per-case time limit"}
+            if len([b for b in rep.broken if b["broken"] == opname + ":no-return"]) < 3:
+                rep.tie_broken(opname + ":no-return", "correspondence", "the implementation did not return on this case within "
+                               + os.environ.get("VERIF_CASE_TIMEOUT_S", "600") + " s (the model returns at once)", case=c)
         except Exception as e:  # harness bug or unexpected crash: treat as broken tie, keep going
             o = {"harness_exception": f"{type(e).__name__}: {e}", "tb": traceback.format_exc()[-600:]}
             for attr in ("inverse_raised", "ckey"):
